@@ -5,6 +5,7 @@
 package main
 
 import (
+	"fmt"
 	"net"
 	"sync"
 	"time"
@@ -49,9 +50,18 @@ func ipamOps(ipam floatingip.IPAM) map[string]func(i int) {
 		"crdIpam.AllocateInSubnetWithKey": func(i int) {
 			_ = ipam.AllocateInSubnetWithKey("dp_ns_a_a-1", "dp_ns_a_a-4", ns.String(), attr)
 		},
-		"crdIpam.ReserveIP":  func(i int) { _, _ = ipam.ReserveIP("dp_ns_a_a-1", "dp_ns_a_", attr) },
-		"crdIpam.UpdateAttr": func(i int) { _ = ipam.UpdateAttr("dp_ns_a_a-1", ip(i), attr) },
-		"crdIpam.Release":    func(i int) { _ = ipam.Release("dp_ns_a_a-1", ip(i)) },
+		"crdIpam.ReserveIP": func(i int) { _, _ = ipam.ReserveIP("dp_ns_a_a-1", "dp_ns_a_", attr) },
+		"crdIpam.UpdateAttr": func(i int) {
+			// an IP the key holds right now, so that the call gets as far as rewriting the entry
+			target := ip(i)
+			if f, err := ipam.First("dp_ns_a_a-1"); err == nil && f != nil && f.IPInfo.IP != nil {
+				target = f.IPInfo.IP.IP
+			}
+			a2 := attr
+			a2.NodeName = fmt.Sprintf("n%d", i%7)
+			_ = ipam.UpdateAttr("dp_ns_a_a-1", target, a2)
+		},
+		"crdIpam.Release": func(i int) { _ = ipam.Release("dp_ns_a_a-1", ip(i)) },
 		"crdIpam.ReleaseIPs": func(i int) {
 			_, _, _ = ipam.ReleaseIPs(map[string]string{ip(i).String(): "dp_ns_a_a-1"})
 		},
